@@ -92,6 +92,11 @@ TEMPLATES['LogLogitU'] = (3, lambda c: ('LogLogit', KEY, ((3, c[0], ('var', 'AVB
                                                            (7, c[2], ('lit', 1)))))
 TEMPLATES['LogLogitA'] = (2, lambda c: ('LogLogit', KEY, ((1, ('var', 'X'), c[0]), (7, ('beta', 'zb', 0), c[1]),
                                                            (3, ('var', 'Y'), ('var', 'AVB')))))
+TEMPLATES['LogLogitAvOrder'] = (3, lambda c: ('LogLogit', KEY, ((3, c[0], ('var', 'AVB')), (1, c[1], ('var', 'AVA')),
+                                                                 (7, c[2], ('lit', 1))), (7, 3, 1)))
+TEMPLATES['LogLogitAvBeta'] = (2, lambda c: ('LogLogit', KEY, (
+    (1, ('Times', ('beta', 'ab', 0), ('var', 'X')), ('Or', ('Greater', ('var', 'Y'), ('beta', 'zb', 0)), ('var', 'AVA'))),
+    (7, c[0], ('lit', 1)), (3, c[1], ('NotEqual', ('Times', ('beta', 'mf', 1), ('var', 'AVB')), ('lit', 0))))))
 TEMPLATES['LogLogitFull'] = (3, lambda c: ('LogLogit', KEY, ((7, c[0], None), (3, c[1], None), (1, c[2], None))))
 TEMPLATES['bioLinearUtility'] = (0, lambda c: ('bioLinearUtility', ((('beta', 'zb', 0), ('var', 'Y')),
                                                                     (('beta', 'mf', 1), ('var', 'X')),
@@ -249,6 +254,30 @@ def concrete_run(case):
                                                         f'mathematical value {want}')
         return dict(reproduced=False, detail='values agree')
     expr = B.build(spec)
+    if mode == 'history':
+        db = Database('replay', df)
+        sub = B.shared['s']
+        subspec = find_shared(spec)
+        try:
+            fa = expr.create_function(database=db, gradient=False, hessian=False, bhhh=False)
+            names = list(expr.id_manager.free_betas.names)
+            xs = [float(asg.get(f'b_{nm}', 0.0)) for nm in names]
+            v1 = float(fa(xs).function)
+            s1 = sub.get_value_c(database=db, prepare_ids=True)
+            v2 = float(fa(xs).function)
+        except Exception as e:  # noqa: BLE001
+            return dict(reproduced=True, detail=f'raises {type(e).__name__}: {str(e)[:300]}')
+        want = sum(symx.evalnum(ref(spec, row, V, info), {}) for row in range(len(df)))
+        if not tol_equal(v1, want):
+            return dict(reproduced=True, detail=f'parent function gives {v1}, mathematical value {want}')
+        if not tol_equal(v2, want):
+            return dict(reproduced=True, detail=f'parent function gives {v2} after a shared sub-formula was evaluated '
+                                                f'on its own (before: {v1}); mathematical value {want}')
+        for row in range(len(df)):
+            w = symx.evalnum(ref(subspec, row, V, info), {})
+            if not tol_equal(float(s1[row]), w):
+                return dict(reproduced=True, detail=f'sub-formula row {row}: {float(s1[row])} vs {w}')
+        return dict(reproduced=False, detail='values agree')
     if mode == 'engine':
         db = Database('replay', df)
         try:
@@ -389,6 +418,34 @@ def worker(item):
                     obs.append((v.label, v.status, None, v.model))
             return obs
         expr = B.build(spec)
+        if mode == 'history':
+            # the parent is turned into a function, a shared sub-formula is then evaluated on its own, and the
+            # parent function is called again: all values must be the mathematical ones
+            sub = B.shared['s']
+            subspec = find_shared(spec)
+            xs = None
+            try:
+                fa = expr.create_function(database=db, gradient=False, hessian=False, bhhh=False)
+                names = list(expr.id_manager.free_betas.names)
+                xs = [symx.SymReal(V.beta(nm)) for nm in names]
+                v1 = fa(xs).function
+                s1 = sub.get_value_c(database=db, prepare_ids=True)
+                v2 = fa(xs).function
+            except symx.PathAbort:
+                raise
+            except Exception as e:  # noqa: BLE001
+                obs.append(('history:no-exception', 'exc', f'{type(e).__name__}: {e}', None))
+                return obs
+            tot = refs[0][0]
+            for row in range(1, nrows):
+                tot = tot + refs[0][row]
+            for lab, val in (('history:parent-before', v1), ('history:parent-after', v2)):
+                v = prove(c, lift(val) == tot, lab)
+                obs.append((v.label, v.status, None, v.model))
+            for row in range(nrows):
+                v = prove(c, lift(s1[row]) == ref(subspec, row, V, info), f'history:sub:row{row}')
+                obs.append((v.label, v.status, None, v.model))
+            return obs
         if mode == 'engine':
             try:
                 got = expr.get_value_c(database=db, prepare_ids=True)
@@ -458,6 +515,17 @@ def worker(item):
     return res
 
 
+def find_shared(spec):
+    if isinstance(spec, tuple):
+        if spec and spec[0] == 'share':
+            return spec[2]
+        for x in spec:
+            r = find_shared(x)
+            if r is not None:
+                return r
+    return None
+
+
 def model_values_names(specs, nrows):
     names = []
     for s in specs:
@@ -480,6 +548,8 @@ def items_for(tier):
         items.append((name, spec, 'engine'))
         if uses_python_evaluator(spec):
             items.append((name, delit(spec), 'python'))
+        if name.startswith('shareDeep<') and leaves(spec)['beta']:
+            items.append((name, spec, 'history'))
     for name, trio in multi_shapes(tier):
         items.append((name, tuple(sanitise(t) for t in trio), 'multi'))
     return items
